@@ -39,6 +39,13 @@ def answer (s : Sys B) (w : List String) (code : Nat) : String :=
   | ["deletechan", t, c] => s!"200 gone={fileGone s t (some c)}"
   | _ => "200"
 
+def persistUntilSnapped : Nat → Sys B → Sys B
+  | 0, s => s
+  | fuel + 1, s =>
+    match s.persist with
+    | some p => if p.phase = .reading then persistUntilSnapped fuel (runSteps fixOn s [.persist .read]) else s
+    | none => s
+
 def stepLine (d : DS) (line : String) : DS × String :=
   let w := words line
   match w with
@@ -53,6 +60,21 @@ def stepLine (d : DS) (line : String) : DS × String :=
     let s := drain fixOn d.s
     ({ s := s, lo := s.hist.length - 1 },
      s!"dat={match datDoc s with | none => "absent" | some x => showDoc x} mem={showDoc (snap s.mem)}")
+  | ["exitpark", pt] =>
+    -- NSQD.Exit started and parked at a verif point: after the snapshot of its persist, or (persist done) while
+    -- closing the topics; the flock is still held
+    if !d.s.alive then (d, "bad-op") else
+    let s0 := drain fixOn d.s
+    let s1 := runSteps fixOn s0 [.exitBegin, .persist (.beginHandler 0)]
+    let s2 := if pt == "meta.persist.afterSnapshot" then
+        persistUntilSnapped (s1.mem.length + 2) s1
+      else runPersist fixOn s1
+    ({ d with s := s2 }, if s2.exiting then "parked" else "bad-op")
+  | ["exitrelease"] =>
+    let s1 := drainHandlers fixOn 4 (match d.s.persist with | some _ => runPersist fixOn d.s | none => d.s)
+    let lo := s1.hist.length - 1
+    let s2 := runSteps fixOn s1 [.exitEnd]
+    ({ s := s2, lo := lo }, if s2.alive then "bad-op" else "exited")
   | "arm" :: _ => (d, "ok")
   | "force" :: _ => (d, "ok")
   | ["kill"] => ({ d with s := runSteps fixOn d.s [.kill] }, "ok")
